@@ -9,22 +9,16 @@ open Hs Hs.Scan Hs.Spell
 
 theorem FirstW.ok {bs : List UInt8} (h : FirstW bs) : FirstOk bs := h
 
-/-- blanks, then a line ending: one `.ch 10` token -/
-theorem lexRead_nlW (ws : List UInt8) (hws : Blanks ws) (nl : List UInt8) (hn : Nl nl) (s : Scan) (rest : List UInt8)
-    (h : At s (ws ++ (nl ++ rest))) (hs : s.stash.length ≤ 1) (hs0 : ws = [] → s.stash = []) (fuel : Nat)
-    (hf : ws.length + 2 ≤ fuel) :
-    ∃ s', lexRead fuel s = .ok { sc := s', tok := .ch 10 } ∧ At s' rest ∧ s'.stash = [] := by
-  obtain ⟨f, rfl⟩ : ∃ f, fuel = f + 1 := ⟨fuel - 1, by omega⟩
+/-- blanks and a line ending may follow a value -/
+theorem DelimW_nl {w nl : List UInt8} (hw : Blanks w) (hn : Nl nl) (rest : List UInt8) : DelimW (w ++ (nl ++ rest)) := by
   obtain ⟨b, r, e, hb⟩ := nl_head hn rest
-  have hb32 : b ≠ 32 := by rcases hb with rfl | rfl <;> decide
-  have hb9 : b ≠ 9 := by rcases hb with rfl | rfl <;> decide
-  obtain ⟨s1, f', h1, hs1, _, _, e1⟩ := lexRead_skip ws hws s b r (by rw [← e]; exact h) hb32 hb9 hs hs0 f (by omega)
-  obtain ⟨s', e2, h2, hs2⟩ := lexRead_nl nl hn s1 rest (by rw [e]; exact h1) (by simp [hs1]) f'
-  exact ⟨s', by rw [e1, e2], h2, hs2⟩
+  rw [e]; exact DelimW_blanks_end hw (by rcases hb with rfl | rfl <;> decide) r
 
-/-- a line ending may follow a value -/
-theorem DelimW_nl {nl : List UInt8} (hn : Nl nl) (rest : List UInt8) : DelimW (nl ++ rest) :=
-  (EndOk.nl nl rest hn).delim
+theorem Post.stash_nil_nl {s : Scan} {w nl rest : List UInt8} (hn : Nl nl) (h : Post s (w ++ (nl ++ rest))) :
+    w = [] → s.stash = [] := by
+  obtain ⟨b, r, e, hb⟩ := nl_head hn rest
+  rw [e] at h
+  exact h.stash_nil_of (by rcases hb with rfl | rfl <;> decide)
 
 /-! ### the spelled cells of a row -/
 
@@ -65,15 +59,16 @@ theorem rowLoopW (r : Tags) (cells : List (List Char × List UInt8)) (names : Li
     (hC : CellsW r cells) (hpres : single = true → ∀ n ∈ names, r.get? n ≠ none) (ns : List (List Char))
     (line : List UInt8) (hl : RowLine cells ns line) :
     ∀ (c : Nat), names.drop c = ns →
-    ∀ (depth f1 f2 : Nat) (sc : Scan) (acc : List (List Char × Val)) (rest nl ws : List UInt8), Nl nl → Blanks ws →
-    depth + nestT r ≤ 64 → At sc (ws ++ (line ++ (nl ++ rest))) → sc.stash.length ≤ 1 → (ws = [] → sc.stash = []) →
-    4 * line.length + ws.length + 14 ≤ f1 → 4 * line.length + ws.length + 14 ≤ f2 →
+    ∀ (depth f1 f2 : Nat) (sc : Scan) (acc : List (List Char × Val)) (rest nl w ws : List UInt8), Nl nl → Blanks w →
+    NoLF nl rest → Blanks ws →
+    depth + nestT r ≤ 64 → At sc (ws ++ (line ++ (w ++ (nl ++ rest)))) → sc.stash.length ≤ 1 → (ws = [] → sc.stash = []) →
+    4 * line.length + ws.length + w.length + 14 ≤ f1 → 4 * line.length + ws.length + w.length + 14 ≤ f2 →
     ∃ p p', lexRead f1 sc = .ok p ∧ rowLoop f2 depth p names c acc = .ok (acc ++ cellsOf r ns, p') ∧
       p'.tok = .ch 10 ∧ At p'.sc rest ∧ p'.sc.stash = [] ∧
       ((2 ≤ ns.length ∨ single = true) → p.sc.eof = false ∧ PS.isChar p 10 = false ∧ PS.isChar p 62 = false) := by
   induction hl with
   | one n =>
-    intro c hdrop depth f1 f2 sc acc rest nl ws hn hws hdepth hat hs hs0 hf1 hf2
+    intro c hdrop depth f1 f2 sc acc rest nl w ws hn hw hcr hws hdepth hat hs hs0 hf1 hf2
     have hname : names[c]? = some n := by
       have := congrArg List.head? hdrop
       simpa [List.head?_drop] using this
@@ -88,7 +83,8 @@ theorem rowLoopW (r : Tags) (cells : List (List Char × List UInt8)) (names : Li
         cases single with
         | false => rfl
         | true => exact absurd hget (hpres rfl n hmem)
-      obtain ⟨s', e, h', hs'⟩ := lexRead_nlW ws hws nl hn sc rest hat hs hs0 f1 (by omega)
+      obtain ⟨s', e, h', hs'⟩ := lexRead_nlW (ws ++ w) (Blanks.append hws hw) nl hn sc rest (by simpa using hat) hcr hs
+        (by intro e; exact hs0 (List.append_eq_nil_iff.mp e).1) f1 (by simp; omega)
       refine ⟨{ sc := s', tok := .ch 10 }, { sc := s', tok := .ch 10 }, e, ?_, rfl, h', hs', ?_⟩
       · rw [rowLoop]
         simp [isChar_ch, cellsOf, hget]
@@ -98,10 +94,11 @@ theorem rowLoopW (r : Tags) (cells : List (List Char × List UInt8)) (names : Li
     | some v =>
       have hv := (hC n).1 v hget
       have hnest : depth + nestV v < 64 := by have := nest_get? r n v hget; omega
-      obtain ⟨p, p1, e1, hne1, hst, e2, hp1⟩ := hv.rd.skip hv.first ws hws depth f1 (g2 + 1) sc (nl ++ rest) hat hs hs0
-        (DelimW_nl hn rest) (by omega) (by omega) hnest
-      obtain ⟨s2, e3, h2, hs2⟩ := lexRead_nl nl hn p1.sc rest hp1.1 hp1.stash_le g2
-      have hne : nl ++ rest ≠ [] := by obtain ⟨b, r', e, _⟩ := nl_head hn rest; rw [e]; simp
+      obtain ⟨p, p1, e1, hne1, hst, e2, hp1⟩ := hv.rd.skip hv.first ws hws depth f1 (g2 + 1) sc (w ++ (nl ++ rest)) hat hs hs0
+        (DelimW_nl hw hn rest) (by omega) (by omega) hnest
+      obtain ⟨s2, e3, h2, hs2⟩ := lexRead_nlW w hw nl hn p1.sc rest hp1.1 hcr hp1.stash_le (hp1.stash_nil_nl hn) (g2 + 1)
+        (by omega)
+      have hne : w ++ (nl ++ rest) ≠ [] := by obtain ⟨b, r', e, _⟩ := nl_head hn rest; rw [e]; simp
       refine ⟨p, { sc := s2, tok := .ch 10 }, e1, ?_, rfl, h2, hs2,
         fun _ => ⟨hne1 hne, hst.isChar 10 (by decide), hst.isChar 62 (by decide)⟩⟩
       rw [rowLoop]
@@ -109,8 +106,8 @@ theorem rowLoopW (r : Tags) (cells : List (List Char × List UInt8)) (names : Li
         e2, hname, PS.read, e3]
       rw [rowLoop]
       simp [isChar_ch, cellsOf, hget]
-  | cons n n2 ns' w restl hw hl' ih =>
-    intro c hdrop depth f1 f2 sc acc rest nl ws hn hws hdepth hat hs hs0 hf1 hf2
+  | cons n n2 ns' w0 restl hw0 hl' ih =>
+    intro c hdrop depth f1 f2 sc acc rest nl w ws hn hw hcr hws hdepth hat hs hs0 hf1 hf2
     have hname : names[c]? = some n := by
       have := congrArg List.head? hdrop
       simpa [List.head?_drop] using this
@@ -125,13 +122,13 @@ theorem rowLoopW (r : Tags) (cells : List (List Char × List UInt8)) (names : Li
       have hempty := (hC n).2 hget
       rw [hempty] at hat hf1 hf2
       simp only [List.nil_append, List.length_nil] at hat hf1 hf2
-      have hat' : At sc (ws ++ 44 :: (w ++ (restl ++ (nl ++ rest)))) := by simpa using hat
+      have hat' : At sc (ws ++ 44 :: (w0 ++ (restl ++ (w ++ (nl ++ rest))))) := by simpa using hat
       obtain ⟨s1, e1, h1, hs1⟩ := lexRead_specialW ws hws sc 44 _ hat' (by decide) (by decide) hs hs0 f1 (by omega)
-      obtain ⟨p, p', e3, e4, ht, h', hs', _⟩ := ih (c + 1) hdrop' depth (g2 + 2) (g2 + 2) s1 acc rest nl w hn hw hdepth h1
-        (by simp [hs1]) (fun _ => hs1) (by omega) (by omega)
+      obtain ⟨p, p', e3, e4, ht, h', hs', _⟩ := ih (c + 1) hdrop' depth (g2 + 2) (g2 + 2) s1 acc rest nl w w0 hn hw hcr hw0
+        hdepth h1 (by simp [hs1]) (fun _ => hs1) (by omega) (by omega)
       have heof : s1.eof = false := by
         obtain ⟨b, r', e, _⟩ := nl_head hn rest
-        cases hx : w ++ (restl ++ (nl ++ rest)) with
+        cases hx : w0 ++ (restl ++ (w ++ (nl ++ rest))) with
         | nil => rw [e] at hx; simp at hx
         | cons x y => rw [hx] at h1; exact h1.eof
       refine ⟨{ sc := s1, tok := .ch 44 }, p', e1, ?_, ht, h', hs',
@@ -142,12 +139,13 @@ theorem rowLoopW (r : Tags) (cells : List (List Char × List UInt8)) (names : Li
     | some v =>
       have hv := (hC n).1 v hget
       have hnest : depth + nestV v < 64 := by have := nest_get? r n v hget; omega
-      have hat' : At sc (ws ++ (cellText cells n ++ (44 :: (w ++ (restl ++ (nl ++ rest)))))) := by simpa using hat
+      have hat' : At sc (ws ++ (cellText cells n ++ (44 :: (w0 ++ (restl ++ (w ++ (nl ++ rest))))))) := by simpa using hat
       obtain ⟨p, p1, e1, hne1, hst, e2, hp1⟩ := hv.rd.skip hv.first ws hws depth f1 (g2 + 2) sc _ hat' hs hs0
         (Or.inr (Or.inl ⟨44, _, rfl, by decide⟩)) (by omega) (by omega) hnest
       have hs1 : p1.sc.advance.stash = [] := by rw [At.advance_stash, hp1.clean (by decide)]; rfl
       obtain ⟨q, p', e3, e4, ht, h', hs', _⟩ := ih (c + 1) hdrop' depth (g2 + 1) (g2 + 1) p1.sc.advance
-        (acc ++ [(n, lexImg v)]) rest nl w hn hw hdepth hp1.1.advance (by simp [hs1]) (fun _ => hs1) (by omega) (by omega)
+        (acc ++ [(n, lexImg v)]) rest nl w w0 hn hw hcr hw0 hdepth hp1.1.advance (by simp [hs1]) (fun _ => hs1) (by omega)
+        (by omega)
       refine ⟨p, p', e1, ?_, ht, h', hs',
         fun _ => ⟨hne1 (by simp), hst.isChar 10 (by decide), hst.isChar 62 (by decide)⟩⟩
       rw [rowLoop]
